@@ -300,7 +300,7 @@ def gen(ctx):
             jobs.append(("idle", idle, [0.5], None, None, None, tr))
             jobs.append(("idle", idle, [], None, None, None, tr))
     for sock in (None, 0, 2):
-        for idle in (None, 30):
+        for idle in (None, 30, 3):
             jobs.append(("ctrl", sock, idle, 40))
     for wait in (None, 0, 1, 2.5):
         for verb in ("RETR", "STOR", "LIST", "MLSD"):
@@ -402,6 +402,9 @@ def _run(ctx, compare=True):
             if sock:
                 if held:
                     res.oracle_failures.append({"input": inp, "what": "the peer stopped reading the control connection; socket_timeout=%s s, but 60 s later the session is still held (connections=%d, tasks=%r)" % (sock, o["connections"], o["tasks"]), "signature": "C16:control-write-stall-never-released"})
+            elif idle is not None and idle < 60 and held:
+                # no write timeout, but the peer is silent as well: the idle timeout bounds the session whatever the reply writer is doing
+                res.oracle_failures.append({"input": inp, "what": "the peer stopped reading the control connection and went silent; idle_timeout=%s s, but 60 s later the session is still held (connections=%d, tasks=%r)" % (idle, o["connections"], o["tasks"]), "signature": "C16:idle-session-never-dropped"})
             continue
         else:
             sock, direction, gaps = j[1], j[2], j[3]
